@@ -55,7 +55,12 @@ func runOne(srvs []*proj.Server, pr *kit.Prepared, c kit.Case, p *plan.Plan, npa
 		e := univ.NewExec(p)
 		ctx, cancel := context.WithCancel(context.Background())
 		done := make(chan *proj.Response, 1)
-		go func() { done <- s.Do(ctx, e, c.Query, c.OpName, c.Variables) }()
+		defRec := c.DefaultRecover
+		go func() {
+			s.DefaultRecover = defRec
+			defer func() { s.DefaultRecover = false }()
+			done <- s.Do(ctx, e, c.Query, c.OpName, c.Variables)
+		}()
 		var resp *proj.Response
 		select {
 		case resp = <-done:
@@ -92,7 +97,7 @@ func runOne(srvs []*proj.Server, pr *kit.Prepared, c kit.Case, p *plan.Plan, npa
 				}
 			}
 		}
-		if npanics >= 0 && resp.Recovers != npanics {
+		if npanics >= 0 && resp.Recovers >= 0 && resp.Recovers != npanics {
 			return vfrun.Failf("recover.count", "[%s %s] recover hook ran %d times for %d panics", s.P.Vec, what, resp.Recovers, npanics)
 		}
 	}
@@ -222,6 +227,12 @@ func genOp(t *rapid.T) Case {
 	c.PlanSeed = rapid.Uint64Range(1, 1<<32).Draw(t, "planseed")
 	if _, f := kit.Prepare(s, c.Case); f != nil {
 		t.Skip("generated operation is not valid: " + f.Msg)
+	}
+	// a sixth of the cases keep gqlgen's own recover hook (every panic is then "internal system
+	// error" at the path of its own position; the hook is not counted)
+	if rapid.IntRange(0, 5).Draw(t, "defaultrecover") == 0 {
+		c.DefaultRecover = true
+		vfrun.Label("default-recover-hook")
 	}
 	return c
 }
